@@ -7,7 +7,7 @@
    Expression::Parameter vs literals) are tied to this by the metamorphic correspondence
    harness/src/bin/c35.rs.  Property theorems only; proofs live in proofs/CypherSubst.v. *)
 From Coq Require Import List NArith ZArith Bool.
-From Verif Require Import CypherCore Cypher CypherProofs CypherSubst.
+From Verif Require Import CypherCore Cypher CypherProofs CypherSubst CypherWrite CypherWriteSubst.
 Import ListNotations.
 Open Scope N_scope.
 
@@ -45,6 +45,48 @@ Example C35_nonvacuous :
   /\ eval_query ex_graph ex_query = ErrT.
 Proof. vm_compute. repeat split. Qed.
 
+(* ---- write statements (CREATE / MERGE / SET with parameters as property values), on the write
+   semantics of coq/model/CypherWrite.v: the same result and the same effect on the graph ---- *)
+Theorem C35_subst_stmt : forall wc cf pe g s,
+  exec_stmt_env_cfg wc cf pe g s = exec_stmt_cfg wc cf g (inline_stmt pe s).
+Proof. exact subst_stmt. Qed.
+
+Theorem C35_subst_stmt_reference : forall pe g s,
+  exec_stmt_env pe g s = exec_stmt g (inline_stmt pe s).
+Proof. intros pe g s. exact (subst_stmt ref_w ref_cfg pe g s). Qed.
+
+(* MATCH (n:A) SET n.p5 = $0 CREATE (:C {p0: $1}) : both nodes labelled A get p5 = 7, and
+   two new nodes carry p0 = 'a' - under the environment and after inlining alike *)
+Definition ex_stmt : stmt :=
+  ST [CMatch false [(NP (Some 1) [0] [], [])] None]
+     [USet [SetProp 1 5 (EParam 0)]; UCreate [(NP None [2] [(0, EParam 1)], [])]] None.
+Example C35_nonvacuous_write :
+  let pe := [(0, VInt 7); (1, VStr [97])] in
+  match exec_stmt_env pe ex_graph ex_stmt, exec_stmt ex_graph (inline_stmt pe ex_stmt) with
+  | Ok (g1, _), Ok (g2, _) =>
+      map (fun n => (prop_of 5 (n_props n), prop_of 0 (n_props n))) (g_nodes g1)
+      = [(VInt 7, VInt 1); (VInt 7, VInt 2); (VNull, VNull); (VNull, VStr [97]); (VNull, VStr [97])]
+      /\ g_nodes g1 = g_nodes g2
+  | _, _ => False
+  end.
+Proof. vm_compute. split; reflexivity. Qed.
+
+(* the witness of the known finding set_param_in_clause_pipeline: CREATE (n:A) SET n.p0 = $0
+   with $0 = 2.  The reference stores 2; leaving the parameter unsubstituted and turning the
+   failing SET into null (the engine's recorded behaviour, eng_w) stores nothing. *)
+Example C35_known_witness :
+  let s := ST [] [UCreate [(NP (Some 1) [0] [], [])]; USet [SetProp 1 0 (EParam 0)]] None in
+  Known_C35 s = true
+  /\ match exec_stmt_env [(0, VInt 2)] ex_graph s, exec_stmt_cfg eng_w ref_cfg ex_graph s with
+     | Ok (g1, _), Ok (g2, _) =>
+         map (fun n => prop_of 0 (n_props n)) (g_nodes g1) = [VInt 1; VInt 2; VNull; VInt 2]
+         /\ map (fun n => prop_of 0 (n_props n)) (g_nodes g2) = [VInt 1; VInt 2; VNull; VNull]
+     | _, _ => False
+     end.
+Proof. vm_compute. repeat split. Qed.
+
+Print Assumptions C35_subst_stmt.
+Print Assumptions C35_subst_stmt_reference.
 Print Assumptions C35_subst.
 Print Assumptions C35_subst_reference.
 Print Assumptions C35_subst_expr.
